@@ -157,6 +157,10 @@ class StmtMixin(object):
             return
         if isinstance(t, (ast.Tuple, ast.List)):
             n = len(t.elts)
+            if not any(isinstance(el, ast.Starred) for el in t.elts) and \
+                    not isinstance(v, (TupleT, Obj)) and self.cur is not None:
+                # unpacking enforces the length of the sequence (ValueError otherwise)
+                un = self.emit('unpack', stmt or t, {'value': v, 'arity': n})
             for i, el in enumerate(t.elts):
                 if isinstance(el, ast.Starred):
                     self.bind_target(el.value, Elem(v), stmt)
@@ -393,13 +397,24 @@ class StmtMixin(object):
             self.land(end)
 
     def st_With(self, s):
+        managed = []
         for item in s.items:
             v = self.ev(item.context_expr)
             if self.cur is None:
                 return
+            managed.append(v)
             if item.optional_vars is not None:
                 self.bind_target(item.optional_vars, v, s)
         self.exec_block(s.body)
+        # leaving the block closes file objects (normal exit; the exceptional exit
+        # closes too but a failing close there only masks the first error)
+        for v in reversed(managed):
+            fobj = self.file_object_of(v)
+            if fobj is not None and fobj[1] and self.cur is not None:
+                data = {'prim': 'file.close', 'kind': 'CLOSE', 'args': [], 'kwargs': {},
+                        'roles': {'fd': fobj[0]}, 'implicit': True}
+                n = self.emit('effect', s, data)
+                self.route_raise(n, ['OSError'])
 
     # ------------------------------------------------------------------ loops
     def st_While(self, s):
